@@ -5,7 +5,7 @@ from engine.bounds import Analysis, Lin, State
 from rules.common import field_is, has_call, derives, value_sources, macro_named
 from rules import c14
 
-UNITS = ['lib/ringbuffer.c', 'lib/log_blackbox.c', 'lib/log_format.c', 'tools/qb_blackbox.c']
+UNITS = ['lib/ringbuffer.c', 'lib/log_blackbox.c', 'lib/log_format.c', 'lib/log.c', 'tools/qb_blackbox.c']
 TECHNIQUE = ('static analysis: taint-style checked-before-use rules on the CFG (cut sets), abstract interpretation over linear '
              'inequalities for every read of the record buffer, must-pass-through rules for cleanup, constant agreement of writer/reader')
 DECIDES = ('Decides that every value taken from the file is compared with the quantity it will index or measure before it is used, '
@@ -19,8 +19,9 @@ RULES = {
     'R4': 'cleanup: after the ring exists every path closes it and frees the record buffer; the descriptor is closed on every path; create_from_file closes the ring on every failure after qb_rb_open and opens it with CREATE (so close unlinks the files)',
     'R5': 'round trip: qb_rb_write_to_file and qb_rb_create_from_file agree on field order, sizes and the hash formula; the blackbox record written by _blackbox_vlogger is consumed field by field in the same order and sizes',
     'R6': 'the decoder stays inside the record: the printer gives it the number of bytes left in the record (entailed <= bytes_read), and in the decoder every fixed-width argument read lies below that bound (data cursor + width <= bound, by abstract interpretation over the cursor), every string argument is used only behind a terminator search limited to the bytes left, and the cursor never passes the bound',
+    'R7': 'the reader takes what the writer can store: the largest message length the printer accepts and the text buffer it decodes into are not below the largest max_line_length a target can be given (C13.R4), and the record buffer is not of a constant size (the function name in a record has no bound) but measured on the ring just opened',
 }
-FLOORS = {'R1': 9, 'R2': 12, 'R3': 2, 'R4': 6, 'R5': 5, 'R6': 12}
+FLOORS = {'R1': 9, 'R2': 12, 'R3': 2, 'R4': 6, 'R5': 5, 'R6': 12, 'R7': 3}
 
 
 def run(ctx):
@@ -30,6 +31,7 @@ def run(ctx):
     r4(ctx)
     r5(ctx)
     r6(ctx)
+    r7(ctx)
 
 
 def r1(ctx):
@@ -569,3 +571,46 @@ def r6(ctx):
         raise AnalysisBroken('%s: string argument uses = %d' % (d.name, uses))
     # a pointer to an argument byte stored in a local and dereferenced: covered by the read obligations when the engine resolves it
     ctx.note('decoder %s analysed with read bound %s on %s: %d read obligations, %d string uses' % (d.name, np_, bp, n, uses))
+
+
+def r7(ctx):
+    from rules import c13
+    prog = ctx.prog
+    sub = type(ctx)(prog, ctx.prop, ctx.tier, ctx.depth)
+    _lo, hi = c13.line_limit_invariant(sub)
+    f = prog.fn('qb_log_blackbox_print_from_file')
+    _d, dnames = c14.decoder_family(prog)
+    ds = list(f.calls(*sorted(dnames)))
+    if not ds:
+        raise AnalysisBroken('print_from_file: no decoder call')
+    mc = list(f.calls('memchr'))
+    if not mc:
+        raise AnalysisBroken('print_from_file: terminator search of the message not found')
+    mlen = estr(unwrap(mc[0].args[2]))
+    # upper limits on the message length known when the message is decoded:  msg_len <= K
+    ks = []
+    for (at, (fb, _t, _lab)) in f.guards(ds[0]):
+        if at.ls == mlen and at.op in ('<', '<=') and at.rc is not None:
+            ks.append((at.rc if at.op == '<=' else at.rc - 1, f.blocks[fb]))
+    if ks:
+        k, b = min(ks, key=lambda x: x[0])
+        ctx.check('R7', 'message-limit>=writer-limit', k >= hi, '%s:%d (%s)' % (f.file, b.term_ln, f.name),
+                  'messages up to %d bytes are accepted, the writer stores at most %d' % (k, hi),
+                  'the printer refuses messages above %d bytes, the writer stores up to %d (max_line_length): such a record ends the print and hides every later one' % (k, hi))
+    else:
+        ctx.ok('R7', 'message-limit>=writer-limit', f, 'the printer has no constant message limit')
+    for dcall in ds:
+        c = cval(unwrap(dcall.args[1]))
+        ctx.check('R7', 'text-buffer>=writer-limit', c is not None and c >= hi, dcall, 'the message is decoded into %s bytes' % c,
+                  'the message is decoded into %s bytes, the writer stores up to %d' % (c if c is not None else estr(dcall.args[1]), hi))
+    rd = [st for st in f.events('STORE') if st.rhs is not None and callee_of(unwrap(st.rhs)) == 'qb_rb_chunk_read']
+    cap = unwrap(rd[0].rhs)['args'][2]
+    inst = estr(unwrap(unwrap(rd[0].rhs)['args'][0]))
+    srcs, _entry = value_sources(f, cap, rd[0])
+    srcs = [x for x in srcs if x.get('k') != 'update']
+    consts = [s for s in srcs if cval(unwrap(s)) is not None]
+    measured = [s for s in srcs if unwrap(s).get('k') == 'call' and any(estr(unwrap(a)) == inst for a in unwrap(s)['args'])]
+    ctx.check('R7', 'record-buffer-measured-on-the-ring', bool(measured), rd[0],
+              'the record capacity comes from %s' % ', '.join(sorted(estr(s) for s in measured)),
+              'the record capacity %s is a constant (%s): a record with a longer function name or message ends the print with ENOBUFS' %
+              (estr(cap), ', '.join(sorted(estr(s) for s in consts))))
